@@ -13,7 +13,7 @@ ops
 * `int <base> <str>`                            → `ok <int>` | `exc:ValueError`
 * `float <str>`                                 → `ok <float(x) in (1.0, 1.5, 2.0): 0|1>` | `exc:ValueError`
 * `host <str>`                                  → `ok` | `exc:<PyType>`          (`_validate_host`)
-* `hostname|ip4|ip6 <str>`                      → `true` | `false` | `exc:IndexError`
+* `hostname|ip4|ip6 <str>`                      → `true` | `false`
 * `fmtres <resource>*`                          → `ok <descriptor>*`             (`_format_resources`)
 -/
 open QmiModel.Descriptor
@@ -63,7 +63,6 @@ def excName : PyExc → String
   | .descriptor => "exc:QMI_TransportDescriptorException"
   | .valueError => "exc:ValueError"
   | .typeError => "exc:TypeError"
-  | .indexError => "exc:IndexError"
 
 def encItems (l : List (Str × PyVal)) : String :=
   " ".intercalate (l.map (fun kv => String.ofList kv.1 ++ "=" ++ encVal kv.2))
@@ -119,7 +118,7 @@ def handle (line : String) : String :=
      | none => "bad-op")
   | ["hostname", x] =>
     (match decStr x with
-     | some s => if s.isEmpty then "exc:IndexError" else toString (isValidHostname s)
+     | some s => toString (isValidHostname s)
      | none => "bad-op")
   | ["ip4", x] => (match decStr x with | some s => toString (isIp4 s) | none => "bad-op")
   | ["ip6", x] => (match decStr x with | some s => toString (isIp6 s) | none => "bad-op")
